@@ -37,6 +37,7 @@ type half struct {
 	wclosed bool // writing end closed: reader drains, then io.EOF
 	rclosed bool // reading end closed: writer fails
 	parked  bool // the reader waits in Read for bytes
+	stalled bool // writers block before queueing anything (a congested carrier)
 	frag    []int
 	fi      int
 }
@@ -107,6 +108,10 @@ func (e *End) Write(p []byte) (int, error) {
 		}
 		if len(p) == 0 {
 			return n, nil
+		}
+		if h.stalled {
+			h.cond.Wait()
+			continue
 		}
 		room := h.capa - len(h.q)
 		if room <= 0 {
@@ -186,6 +191,24 @@ func (e *End) Closed() bool {
 	e.mu.Lock()
 	defer e.mu.Unlock()
 	return e.closed
+}
+
+// Stall makes Write calls of side d block (after they were stamped and tapped)
+// until Resume or until an end is closed: transport-level backpressure.
+func (l *Link) Stall(d int) {
+	h := l.half[d]
+	h.mu.Lock()
+	h.stalled = true
+	h.mu.Unlock()
+}
+
+// Resume ends a Stall.
+func (l *Link) Resume(d int) {
+	h := l.half[d]
+	h.mu.Lock()
+	h.stalled = false
+	h.cond.Broadcast()
+	h.mu.Unlock()
 }
 
 // Break closes both ends (a failing carrier).
